@@ -633,3 +633,46 @@ Definition res_elt_beq (a b : result elt) : bool :=
 
 (* helpers for the case files: a string given by its character codes *)
 Definition sc (l : list nat) : string := string_of_list_ascii (map ascii_of_nat l).
+
+(* ------------------------------------------------------------------------- *)
+(*  Part 8.  Reference semantics of Python's `re` for the fragment used by     *)
+(*           _range (a backtracking matcher: alternatives in order, greedy     *)
+(*           repetition).  match_range above is proved equal to it.            *)
+(* ------------------------------------------------------------------------- *)
+Inductive re := REps | RChar (p : ascii -> bool) | RCat (a b : re) | RAlt (a b : re) | RStar (a : re).
+
+(* continuation-passing matcher: [k] receives the rest of the string after the part matched so
+   far and may refuse it (None), which makes the matcher try its next choice *)
+(* greedy repetition: one more iteration of [ma] first (it must consume something), else go on with k *)
+Fixpoint star_with (ma : str -> (str -> option str) -> option str) (k : str -> option str)
+                   (fuel : nat) (s : str) : option str :=
+  match fuel with
+  | 0 => k s
+  | S f =>
+      match ma s (fun s' => if length s' <? length s then star_with ma k f s' else None) with
+      | Some x => Some x
+      | None => k s
+      end
+  end.
+Fixpoint re_m (r : re) (s : str) (k : str -> option str) {struct r} : option str :=
+  match r with
+  | REps => k s
+  | RChar p => match s with c :: t => if p c then k t else None | [] => None end
+  | RCat a b => re_m a s (fun s' => re_m b s' k)
+  | RAlt a b => match re_m a s k with Some x => Some x | None => re_m b s k end
+  | RStar a => star_with (re_m a) k (length s) s
+  end.
+(* pattern.match(s): Some (matched text, rest) *)
+Definition re_match (r : re) (s : str) : option (str * str) :=
+  match re_m r s (fun rest => Some rest) with
+  | Some rest => Some (firstn (length s - length rest) s, rest)
+  | None => None
+  end.
+
+Definition r_digit := RChar is_digit.
+Definition r_letter := RChar is_letter.
+Definition r_colon := RChar is_colon.
+(* ([0-9]*:[0-9]+|[a-zA-Z]?:[a-zA-Z]) *)
+Definition range_re : re :=
+  RAlt (RCat (RStar r_digit) (RCat r_colon (RCat r_digit (RStar r_digit))))
+       (RCat (RAlt r_letter REps) (RCat r_colon r_letter)).
